@@ -51,13 +51,13 @@ thread_local! {
     static ALSO: RefCell<Vec<Finding>> = const { RefCell::new(Vec::new()) };
 }
 
-fn timers_reset() {
+pub(crate) fn timers_reset() {
     TIMERS.with(|t| t.borrow_mut().clear());
 }
-fn timers_len() -> usize {
+pub(crate) fn timers_len() -> usize {
     TIMERS.with(|t| t.borrow().len())
 }
-fn timer_fire(i: usize) {
+pub(crate) fn timer_fire(i: usize) {
     let w = TIMERS.with(|t| {
         t.borrow_mut().get_mut(i).and_then(|s| {
             s.fired = true;
@@ -68,7 +68,7 @@ fn timer_fire(i: usize) {
         w.wake();
     }
 }
-fn timer_registered(i: usize) -> bool {
+pub(crate) fn timer_registered(i: usize) -> bool {
     TIMERS.with(|t| t.borrow().get(i).map(|s| s.waker.is_some()).unwrap_or(false))
 }
 
@@ -93,8 +93,8 @@ impl Future for ManualTimer {
 
 /// Waker that only counts: the harness polls the multiplexer itself and looks at the count.
 #[derive(Default)]
-struct WakeRec {
-    n: AtomicUsize,
+pub(crate) struct WakeRec {
+    pub(crate) n: AtomicUsize,
 }
 
 impl std::task::Wake for WakeRec {
@@ -133,7 +133,7 @@ impl Time for ManualTime {
 // ------------------------------------------------------------------------------------------
 // scripted stream
 
-enum Inb {
+pub(crate) enum Inb {
     Bytes(Vec<u8>),
     /// a well-formed response whose id is chosen when the multiplexer reads it: an id that no
     /// request of this run has ever carried
@@ -143,20 +143,20 @@ enum Inb {
 }
 
 #[derive(Default)]
-struct StreamShared {
-    q: VecDeque<Inb>,
-    ids: Vec<u16>,
-    ended: bool,
+pub(crate) struct StreamShared {
+    pub(crate) q: VecDeque<Inb>,
+    pub(crate) ids: Vec<u16>,
+    pub(crate) ended: bool,
     /// the waker handed over with the last poll that was answered Pending; consumed by the
     /// wake-up the next inbound item causes
-    registered: Option<Waker>,
+    pub(crate) registered: Option<Waker>,
     /// items handed to the multiplexer so far
-    popped: usize,
+    pub(crate) popped: usize,
 }
 
-struct SimStream {
-    sh: Arc<Mutex<StreamShared>>,
-    addr: SocketAddr,
+pub(crate) struct SimStream {
+    pub(crate) sh: Arc<Mutex<StreamShared>>,
+    pub(crate) addr: SocketAddr,
 }
 
 fn unknown_question() -> Q {
@@ -212,6 +212,8 @@ impl DnsClientStream for SimStream {
 pub enum Ev {
     Send,
     Deliver(u8),
+    /// a message carrying the id of request i that is unusual in one respect (see `ODD`)
+    DeliverOdd(u8, u8),
     Dup,
     Unknown,
     GarbageShort,
@@ -228,6 +230,7 @@ impl Ev {
         match self {
             Ev::Send => "send".into(),
             Ev::Deliver(i) => format!("deliver:{i}"),
+            Ev::DeliverOdd(i, f) => format!("deliver-{}:{i}", ODD[f as usize].0),
             Ev::Dup => "duplicate".into(),
             Ev::Unknown => "unknown-id".into(),
             Ev::GarbageShort => "undecodable-short".into(),
@@ -247,6 +250,9 @@ impl Ev {
         Some(match (a, b) {
             ("send", None) => Ev::Send,
             ("deliver", Some(i)) => Ev::Deliver(i),
+            (x, Some(i)) if x.starts_with("deliver-") && ODD.iter().any(|o| o.0 == &x[8..]) => {
+                Ev::DeliverOdd(i, ODD.iter().position(|o| o.0 == &x[8..]).unwrap() as u8)
+            }
             ("duplicate", None) => Ev::Dup,
             ("unknown-id", None) => Ev::Unknown,
             ("undecodable-short", None) => Ev::GarbageShort,
@@ -261,6 +267,20 @@ impl Ev {
     }
 }
 
+/// Unusual messages carrying a pending request's id: (name, flags word, foreign question?).
+/// The statement routes by id alone, so the first five must reach the request like any other
+/// response; a QR=0 message is not a response - delivering or dropping it is not judged, but it
+/// must not reach anybody else.
+pub const ODD: [(&str, u16, bool); 6] = [
+    ("tc", 0x8380, false),
+    ("servfail", 0x8182, false),
+    ("notify-opcode", 0xa180, false),
+    ("update-opcode", 0xa980, false),
+    ("other-question", 0x8180, true),
+    ("qr0", 0x0100, false),
+];
+const ODD_QR0: u8 = 5;
+
 #[derive(Clone, Copy, Debug, PartialEq, Eq, Hash)]
 pub struct Cfg {
     /// number of send attempts
@@ -270,6 +290,9 @@ pub struct Cfg {
     pub qmax: u8,
     /// wake-driven family: the multiplexer is polled only when a wake-up is pending
     pub wd: bool,
+    /// unusual messages with a pending id (TC, rcode, other opcodes, foreign question, QR=0) are
+    /// part of the alphabet
+    pub odd: bool,
 }
 
 #[derive(Clone, Debug)]
@@ -279,12 +302,12 @@ pub struct Node {
 }
 
 pub fn case_json(cfg: &Cfg, hist: &[Ev]) -> Value {
-    json!({"part": "mux", "k": cfg.k, "max_active": cfg.max_active, "qmax": cfg.qmax, "wake_driven": cfg.wd,
+    json!({"part": "mux", "k": cfg.k, "max_active": cfg.max_active, "qmax": cfg.qmax, "wake_driven": cfg.wd, "odd": cfg.odd,
            "events": hist.iter().map(|e| e.name()).collect::<Vec<_>>()})
 }
 
 pub fn case_from_json(v: &Value) -> Option<(Cfg, Vec<Ev>)> {
-    let cfg = Cfg { k: v["k"].as_u64()? as u8, max_active: v["max_active"].as_u64()? as u8, qmax: v["qmax"].as_u64()? as u8, wd: v["wake_driven"].as_bool().unwrap_or(false) };
+    let cfg = Cfg { k: v["k"].as_u64()? as u8, max_active: v["max_active"].as_u64()? as u8, qmax: v["qmax"].as_u64()? as u8, wd: v["wake_driven"].as_bool().unwrap_or(false), odd: v["odd"].as_bool().unwrap_or(false) };
     let mut h = vec![];
     for e in v["events"].as_array()? {
         h.push(Ev::from_name(e.as_str()?)?);
@@ -325,7 +348,7 @@ struct Req {
 #[derive(Clone, Debug)]
 #[allow(dead_code)]
 enum MItem {
-    Resp { id: u16, marker: [u8; 4], target: u8, bytes: Vec<u8> },
+    Resp { id: u16, marker: [u8; 4], target: u8, bytes: Vec<u8>, optional: bool, flavour: u8 },
     Unknown { marker: [u8; 4] },
     Garbage(u8),
     Error,
@@ -365,11 +388,11 @@ pub struct Sys {
     last_scene: &'static str,
 }
 
-fn addr() -> SocketAddr {
+pub(crate) fn addr() -> SocketAddr {
     "192.0.2.53:53".parse().unwrap()
 }
 
-fn req_question(i: usize) -> Q {
+pub(crate) fn req_question(i: usize) -> Q {
     Q { name: labels(&format!("r{i}.example")), qtype: 1, qclass: 1 }
 }
 
@@ -425,6 +448,15 @@ impl Sys {
             for i in 0..n {
                 if self.reqs[i].accepted {
                     v.push(Ev::Deliver(i as u8));
+                }
+            }
+            if self.cfg.odd {
+                for i in 0..n {
+                    if self.live(i) {
+                        for f in 0..ODD.len() {
+                            v.push(Ev::DeliverOdd(i as u8, f as u8));
+                        }
+                    }
                 }
             }
             if matches!(self.mq.back(), Some(MItem::Resp { .. })) {
@@ -486,7 +518,10 @@ impl Sys {
         if !(self.closed && !any_live) {
             for m in &self.mq {
                 k.push(match m {
-                    MItem::Resp { target, .. } => 0x10 | *target,
+                    // unread messages of different flavours are different states: what the
+                    // multiplexer does with them is only seen at a later poll
+                    MItem::Resp { target, flavour: 0, .. } => 0x10 | *target,
+                    MItem::Resp { target, flavour, .. } => 0x80 | (*flavour << 2) | (*target & 3),
                     MItem::Unknown { .. } => 0x20,
                     MItem::Garbage(v) => 0x30 | *v,
                     MItem::Error => 0x40,
@@ -539,6 +574,7 @@ impl Sys {
         let waiting = |i: usize| self.live(i) && !self.reqs[i].cancelled && !self.reqs[i].fired && self.reqs[i].rx.is_some() && !self.reqs[i].terminated;
         for m in &self.mq {
             match m {
+                MItem::Resp { optional: true, .. } => {}
                 MItem::Resp { id, .. } => {
                     if let Some(i) = (0..self.reqs.len()).find(|i| waiting(*i) && self.reqs[*i].id == *id) {
                         return Some(Finding {
@@ -685,11 +721,24 @@ impl Sys {
                 if let Some(l) = l.as_deref_mut() {
                     l.outcome(if self.live(i) { "mux:deliver-for-live" } else { "mux:deliver-late" });
                 }
-                self.push_inbound(Inb::Bytes(bytes.clone()), MItem::Resp { id, marker, target: i as u8, bytes });
+                self.push_inbound(Inb::Bytes(bytes.clone()), MItem::Resp { id, marker, target: i as u8, bytes, optional: false, flavour: 0 });
+            }
+            Ev::DeliverOdd(i, f) => {
+                let i = i as usize;
+                let (_, flags, foreign_q) = ODD[f as usize];
+                let id = self.reqs[i].id;
+                let marker = self.next_marker(i as u8, 1 + f);
+                let q = if foreign_q { Q { name: labels("zz.other"), qtype: 16, qclass: 3 } } else { req_question(i) };
+                let bytes = wirekit::message(id, flags, &[q.clone()], &q.name, marker);
+                self.log.push((marker, Some(i)));
+                if let Some(l) = l.as_deref_mut() {
+                    l.outcome(&format!("mux:deliver-odd:{}", ODD[f as usize].0));
+                }
+                self.push_inbound(Inb::Bytes(bytes.clone()), MItem::Resp { id, marker, target: i as u8, bytes, optional: f == ODD_QR0, flavour: 1 + f });
             }
             Ev::Dup => {
-                if let Some(MItem::Resp { id, marker, target, bytes }) = self.mq.back().cloned() {
-                    self.push_inbound(Inb::Bytes(bytes.clone()), MItem::Resp { id, marker, target, bytes });
+                if let Some(MItem::Resp { id, marker, target, bytes, optional, flavour }) = self.mq.back().cloned() {
+                    self.push_inbound(Inb::Bytes(bytes.clone()), MItem::Resp { id, marker, target, bytes, optional, flavour });
                 }
             }
             Ev::Unknown => {
@@ -777,6 +826,7 @@ impl Sys {
         let mut strict = vec![false; n];
         let mut fired_now = vec![false; n];
         let mut offered: Vec<Vec<[u8; 4]>> = vec![vec![]; n]; // everything queued under the request's id
+        let mut opt: Vec<[u8; 4]> = vec![]; // messages whose delivery is not judged (QR=0 with a pending id)
         if !self.closed {
             for i in 0..n {
                 if self.live(i) {
@@ -794,7 +844,10 @@ impl Sys {
                 let Some(item) = self.mq.pop_front() else { break };
                 budget -= 1;
                 match item {
-                    MItem::Resp { id, marker, .. } => {
+                    MItem::Resp { id, marker, optional, .. } => {
+                        if optional {
+                            opt.push(marker);
+                        }
                         for i in 0..n {
                             if self.reqs[i].accepted && self.reqs[i].id == id {
                                 offered[i].push(marker);
@@ -802,7 +855,9 @@ impl Sys {
                         }
                         match (0..n).find(|i| self.live(*i) && self.reqs[*i].id == id) {
                             Some(i) => {
-                                exp[i].push(marker);
+                                if !optional {
+                                    exp[i].push(marker);
+                                }
                                 last_kind = "after-response";
                                 if let Some(l) = l.as_deref_mut() {
                                     l.outcome("mux:ref-routes-response");
@@ -903,9 +958,19 @@ impl Sys {
                 }));
             }
             if strict[i] {
+                let judged: Vec<[u8; 4]> = markers.iter().copied().filter(|m| !opt.contains(m)).collect();
+                if judged.len() != markers.len() {
+                    if let Some(l) = l.as_deref_mut() {
+                        l.outcome("obs:mux-qr0-message-with-pending-id-delivered");
+                    }
+                }
+                let markers = judged;
                 if markers != exp[i] {
+                    // which kind of message got lost (marker byte 2 = flavour, 0 = plain response)
+                    let lost = exp[i].iter().find(|m| !markers.contains(m)).map(|m| m[2]).unwrap_or(0);
+                    let nd_key = if lost == 0 { "stream-response-not-delivered".to_string() } else { format!("stream-response-not-delivered:{}", ODD[(lost as usize - 1).min(ODD.len() - 1)].0) };
                     let (key, what) = if markers.len() < exp[i].len() {
-                        ("stream-response-not-delivered", format!("request {i} is pending, {} response(s) with its id were read from the connection, {} reached it", exp[i].len(), markers.len()))
+                        (nd_key.as_str(), format!("request {i} is pending, {} response(s) with its id were read from the connection, {} reached it", exp[i].len(), markers.len()))
                     } else {
                         ("stream-unexpected-response", format!("request {i} received {} response(s), the connection carried {} for it", markers.len(), exp[i].len()))
                     };
@@ -1043,21 +1108,23 @@ pub fn replay(cfg: Cfg, hist: &[Ev], mut l: Option<&mut Local>) -> Result<Sys, (
 pub const NOT_ENABLED: &str = "history-not-executable";
 
 pub fn configs(thorough: bool) -> (Vec<Cfg>, usize) {
-    let c = |k, max_active, qmax| Cfg { k, max_active, qmax, wd: false };
+    let c = |k, max_active, qmax| Cfg { k, max_active, qmax, wd: false, odd: false };
+    let o = |k, max_active, qmax| Cfg { k, max_active, qmax, wd: false, odd: true };
     if thorough {
-        (vec![c(3, 32, 4), c(3, 2, 3), c(3, 1, 3), c(2, 32, 5), c(2, 1, 4)], 12)
+        (vec![c(3, 32, 4), c(3, 2, 3), c(3, 1, 3), c(2, 32, 5), c(2, 1, 4), o(2, 32, 3), o(3, 32, 2)], 12)
     } else {
-        (vec![c(2, 32, 3), c(2, 1, 3), c(3, 32, 3), c(3, 2, 2)], 9)
+        (vec![c(2, 32, 3), c(2, 1, 3), c(3, 32, 3), c(3, 2, 2), o(2, 32, 2)], 9)
     }
 }
 
 /// The wake-driven family: same events, the multiplexer is polled only when a wake-up is due.
 pub fn wd_configs(thorough: bool) -> (Vec<Cfg>, usize) {
-    let c = |k, max_active, qmax| Cfg { k, max_active, qmax, wd: true };
+    let c = |k, max_active, qmax| Cfg { k, max_active, qmax, wd: true, odd: false };
+    let o = |k, max_active, qmax| Cfg { k, max_active, qmax, wd: true, odd: true };
     if thorough {
-        (vec![c(3, 32, 3), c(3, 2, 3), c(2, 32, 4), c(2, 1, 3)], 12)
+        (vec![c(3, 32, 3), c(3, 2, 3), c(2, 32, 4), c(2, 1, 3), o(2, 32, 3)], 12)
     } else {
-        (vec![c(2, 32, 3), c(2, 1, 3)], 10)
+        (vec![c(2, 32, 3), c(2, 1, 3), o(2, 32, 2)], 10)
     }
 }
 
@@ -1140,7 +1207,7 @@ fn explore(ctx: &Ctx, cfgs: &[Cfg], depth: usize) -> vcore::BfsStats {
 }
 
 fn cfgs_json(cfgs: &[Cfg]) -> Value {
-    json!(cfgs.iter().map(|c| json!({"k": c.k, "max_active": c.max_active, "qmax": c.qmax, "wake_driven": c.wd})).collect::<Vec<_>>())
+    json!(cfgs.iter().map(|c| json!({"k": c.k, "max_active": c.max_active, "qmax": c.qmax, "wake_driven": c.wd, "odd": c.odd})).collect::<Vec<_>>())
 }
 
 // ------------------------------------------------------------------------------------------
@@ -1188,7 +1255,7 @@ fn drive(cfg: Cfg, script: &[(Ev, bool)], mut l: Option<&mut Local>) -> (Vec<Ev>
 }
 
 pub fn burst_scripts(thorough: bool) -> Vec<(Cfg, Vec<(Ev, bool)>)> {
-    let cfg = Cfg { k: 1, max_active: 32, qmax: 255, wd: true };
+    let cfg = Cfg { k: 1, max_active: 32, qmax: 255, wd: true, odd: false };
     let sizes: Vec<usize> = if thorough {
         vec![1, 50, 97, 98, 99, 100, 101, 102, 149, 150, 198, 199, 200, 201, 248]
     } else {
